@@ -26,6 +26,37 @@ QUERIES = ['Cluster.is_idle', 'Buffer.is_empty', 'Scheduler.is_idle', 'Telescope
            'Observation.is_ready', 'Observation.is_finished', 'Telescope.has_observations_to_process']
 
 
+def _fresh_value(v, fresh, name, d=0):
+    """does expression v evaluate to an object this function has just created?"""
+    if d > 6:
+        return False
+    if isinstance(v, (ast.List, ast.Dict, ast.Set, ast.ListComp, ast.DictComp, ast.SetComp,
+                      ast.Constant, ast.BinOp, ast.JoinedStr, ast.Compare, ast.BoolOp)):
+        return True
+    if isinstance(v, ast.Call):
+        fn = v.func
+        # constructor / library call / method returning a new object (to_df, join, T ...)
+        root = fn
+        while isinstance(root, ast.Attribute):
+            root = root.value
+        if isinstance(root, ast.Name) and root.id in ('pd', 'np', 'nx', 'copy', 'len', 'int', 'str',
+                                                      'list', 'dict', 'set', 'sum', 'sorted', 'max', 'min'):
+            return True
+        if isinstance(fn, ast.Attribute) and fn.attr in ('to_df', 'join', 'infer_objects', 'copy',
+                                                         'finished_task_time_data', 'fillna'):
+            return True
+        if isinstance(root, ast.Name) and (root.id in fresh or root.id == name):
+            return True
+        if isinstance(fn, ast.Attribute) and _fresh_value(fn.value, fresh, name, d + 1):
+            return True       # a method of a fresh object: fresh().T.copy()
+        return False
+    if isinstance(v, ast.Attribute):
+        if isinstance(v.value, ast.Name) and (v.value.id in fresh or v.value.id == name):
+            return True      # df = df.T
+        return isinstance(v.value, (ast.Call, ast.Attribute)) and _fresh_value(v.value, fresh, name, d + 1)
+    return False
+
+
 def fresh_locals(f):
     """locals bound (every time) to something the function creates itself"""
     out = set()
@@ -36,26 +67,8 @@ def fresh_locals(f):
         ok = True
         for n in nodes:
             if isinstance(n, ast.Assign) and any(isinstance(t, ast.Name) and t.id == name for t in n.targets):
-                v = n.value
-                if isinstance(v, (ast.List, ast.Dict, ast.Set, ast.ListComp, ast.DictComp, ast.SetComp,
-                                  ast.Constant, ast.BinOp, ast.JoinedStr, ast.Compare, ast.BoolOp)):
+                if _fresh_value(n.value, out, name):
                     continue
-                if isinstance(v, ast.Call):
-                    fn = v.func
-                    # constructor / library call / method returning a new object (to_df, join, T ...)
-                    root = fn
-                    while isinstance(root, ast.Attribute):
-                        root = root.value
-                    if isinstance(root, ast.Name) and root.id in ('pd', 'np', 'nx', 'copy', 'len', 'int', 'str',
-                                                                  'list', 'dict', 'set', 'sum', 'sorted', 'max', 'min'):
-                        continue
-                    if isinstance(fn, ast.Attribute) and fn.attr in ('to_df', 'join', 'infer_objects', 'copy',
-                                                                     'finished_task_time_data', 'fillna'):
-                        continue
-                    if isinstance(root, ast.Name) and (root.id in out or root.id == name):
-                        continue
-                if isinstance(v, ast.Attribute) and isinstance(v.value, ast.Name) and (v.value.id in out or v.value.id == name):
-                    continue      # df = df.T
                 ok = False
             elif isinstance(n, (ast.For, ast.comprehension)):
                 ok = False
